@@ -33,6 +33,7 @@ def instrOfJson (j : Json) : Except String Instr := do
     | "load", [a] => pure (.load (← asNat a))
     | "loadBool", [b] => pure (.loadBool (← asBool b))
     | "loadNone", [] => pure .loadNone
+    | "loadLit", [n, t] => pure (.loadLit (← asNat n) (← asBool t))
     | "copy", [n] => pure (.copy (← asNat n))
     | "swap", [n] => pure (.swap (← asNat n))
     | "popTop", [] => pure .popTop
@@ -61,6 +62,7 @@ partial def exprOfJson (j : Json) : Except String Expr := do
     | "atom", [n] => pure (.atom (← asNat n))
     | "bool", [b] => pure (.bool (← asBool b))
     | "none", [] => pure .none
+    | "lit", [n, t] => pure (.lit (← asNat n) (← asBool t))
     | "not", [e] => pure (.not (← exprOfJson e))
     | "boolop", [o, vs] =>
       match ← asArr vs with
@@ -103,6 +105,7 @@ partial def jsonOfTerm : Bytecode.Term → Json
   | .atom n => Json.arr #["atom", toJson n]
   | .bool b => .bool b
   | .none => .null
+  | .lit n t => Json.arr #["lit", toJson n, .bool t]
   | .app f a => Json.arr #["app", .str f, .arr (a.map jsonOfTerm).toArray]
 
 def jsonOfQ : Q → Json
